@@ -356,6 +356,12 @@ def gen_expression_desc(repo, res):
 def sample_kernel_text(repo, be: str, kind: str, scalar: str = "float64"):
     """(emitted text, object name, generator Func) of the `kind` ("integral" / "expression") generator of backend `be`, interpreted on a
     small sample IR with the kernel body replaced by MARK. Raises Raised / AnalysisError like the interpreter does."""
+    out, obj, g = sample_generator_output(repo, be, kind, scalar)
+    return out[-1], obj, g
+
+
+def sample_generator_output(repo, be: str, kind: str, scalar: str = "float64"):
+    """(the tuple of texts the generator returns, object name, generator Func); see sample_kernel_text."""
     from ..npmodel import NDArr
 
     modname = f"ffcx.codegeneration.{be}.{kind}"
@@ -382,7 +388,42 @@ def sample_kernel_text(repo, be: str, kind: str, scalar: str = "float64"):
         obj = "expression_s"
     if not isinstance(out, tuple) or not all(isinstance(t, str) for t in out):
         raise AnalysisError(f"{be} {kind} generator did not return a tuple of texts")
-    return out[-1], obj, g
+    return out, obj, g
+
+
+def sample_file_output(repo, be: str, scalar: str = "float64"):
+    """what the file generator of backend `be` returns for the given scalar type (interpreted; version strings are stand-ins)"""
+    import textwrap
+
+    modname = f"ffcx.codegeneration.{be}.file"
+    g = repo.mod(modname).func("generator")
+    it = _interp(repo, modname, scalar)
+    it.overrides["FFCX_VERSION"] = "0.0.test"
+    it.overrides["UFC_VERSION"] = "0.0.ufcx"
+    it.overrides["pprint.pformat"] = _PyCall(lambda o, *a, **k: repr(o))
+    it.overrides["textwrap.indent"] = _PyCall(lambda t, p_, *a: textwrap.indent(t, p_))
+    return it.call_f(g, [{"scalar_type": scalar, "part": "full"}]), g
+
+
+def sample_form_output(repo, be: str):
+    """what the form generator of backend `be` returns on a small FormIR (a functional with one cell integral)"""
+    import string
+
+    modname = f"ffcx.codegeneration.{be}.form"
+    g = repo.mod(modname).func("generator")
+    it = Interp(repo, load_classes(repo), primary=modname)
+    it.overrides["logger"] = Node("Logger", info=_PyCall(lambda *a: None), debug=_PyCall(lambda *a: None))
+    it.overrides["template_keys"] = _PyCall(lambda t: set(f for _, f, _, _ in string.Formatter().parse(t) if f))
+    it.overrides["np.argsort"] = _PyCall(lambda ids: sorted(range(len(ids)), key=lambda i: ids[i]))
+    it.overrides["np.lexsort"] = _PyCall(lambda keys: sorted(range(len(keys[-1])), key=lambda i: tuple(k[i] for k in reversed(keys))))
+    it.overrides["np.unique"] = _PyCall(lambda a, return_index=False: (sorted(set(a)), [list(a).index(v) for v in sorted(set(a))]) if return_index else sorted(set(a)))
+    types = ["cell", "exterior_facet", "interior_facet", "vertex", "ridge"]
+    ir = Node("FormIR", id=0, name="form_s", signature="sig", rank=0, num_coefficients=0, name_from_uflfile="M", original_coefficient_positions=[], coefficient_names=[],
+              num_constants=0, constant_ranks=[], constant_shapes=[], constant_names=[], finite_element_hashes=[],
+              integral_names={t: (["ic"] if t == "cell" else []) for t in types},
+              integral_domains={t: ([[Node("CellType", name="triangle")]] if t == "cell" else []) for t in types},
+              subdomain_ids={t: ([-1] if t == "cell" else []) for t in types})
+    return it.call_f(g, [ir, {"scalar_type": "float64"}]), g
 
 
 def _file_scope_names(text: str, be: str) -> set[str]:
